@@ -100,3 +100,51 @@ package middleware
 //@   params w
 //@   modifies nothing
 //@   ensures sameslice(result, wProto(w))
+//@
+//@ # ---- C12: the per-request work ledger: each budget dimension is paired with ITS OWN limit and exhaustion bit;
+//@ # in enforce mode a debit is published only by compare-and-swap from a value still below the limit (so an accepted
+//@ # counter never exceeds its cap, whatever other goroutines do), and a rejection leaves the counter untouched;
+//@ # in shadow mode budgets are only counted and nothing is ever rejected
+//@ func (RecursionWorkPolicy).Enabled
+//@   modifies nothing
+//@   ensures result == (p.Mode == RecursionWorkShadow || p.Mode == RecursionWorkEnforce)
+//@
+//@ func (*RecursionWorkLedger).aggregateDimension
+//@   requires l != nil
+//@   modifies nothing
+//@   ensures result3 == (kind == RecursionWorkOutboundQuery || kind == RecursionWorkInternalQuery || kind == RecursionWorkSignature || kind == RecursionWorkDSDigest || kind == RecursionWorkNSEC3Hash)
+//@   ensures kind == RecursionWorkOutboundQuery ==> result1 == l.policy.MaxOutboundQueries && result2 == outboundExhausted
+//@   ensures kind == RecursionWorkInternalQuery ==> result1 == l.policy.MaxInternalQueries && result2 == internalExhausted
+//@   ensures kind == RecursionWorkSignature ==> result1 == l.policy.MaxSignatureChecks && result2 == signatureExhausted
+//@   ensures kind == RecursionWorkDSDigest ==> result1 == l.policy.MaxDSDigests && result2 == dsDigestExhausted
+//@   ensures kind == RecursionWorkNSEC3Hash ==> result1 == l.policy.MaxNSEC3Hashes && result2 == nsec3HashExhausted
+//@   ensures result3 ==> result0 != nil
+//@
+//@ func (*RecursionWorkLedger).localDimension
+//@   requires l != nil
+//@   modifies nothing
+//@   ensures result2 == (kind == RecursionWorkDNSKEYCandidate || kind == RecursionWorkRRsetSignature || kind == RecursionWorkConcurrentCrypto)
+//@   ensures kind == RecursionWorkDNSKEYCandidate ==> result0 == l.policy.MaxDNSKEYCandidates && result1 == dnskeyCandidateExhausted
+//@   ensures kind == RecursionWorkRRsetSignature ==> result0 == l.policy.MaxRRsetSignatureChecks && result1 == rrsetSignatureExhausted
+//@   ensures kind == RecursionWorkConcurrentCrypto ==> result0 == l.policy.MaxConcurrentCrypto && result1 == concurrentCryptoExhausted
+//@
+//@ func (*RecursionWorkLedger).markExhausted
+//@   trusted
+//@   modifies l.exhausted, l.first
+//@
+//@ func (*RecursionWorkLedger).controlError
+//@   modifies nothing
+//@   ensures result1 == (l != nil && l.rootState.v > 1)
+//@
+//@ func (*RecursionWorkLedger).debit
+//@   nosafety ovf
+//@   assert at call (*sync/atomic.Uint32).CompareAndSwap#1: arg1 < limit && arg2 == arg1 + 1 && arg0 == counter && l.policy.Mode == RecursionWorkEnforce
+//@   assert at call (*sync/atomic.Uint32).Add#1: l.policy.Mode == RecursionWorkShadow && arg0 == counter
+//@   assert at return: l != nil && old(l.policy.Mode) == RecursionWorkShadow && old(l.rootState.v) <= 1 ==> result == nil
+//@   assert at return#4: result != nil && used >= limit
+//@   loop 1 invariant l != nil && l.policy.Mode == RecursionWorkEnforce && calls("(*sync/atomic.Uint32).Add") == 0
+//@
+//@ func (*RecursionWorkLedger).checkLocal
+//@   assert at return: l != nil && old(l.rootState.v) <= 1 && old(l.policy.Mode) == RecursionWorkShadow ==> result == nil
+//@   assert at return: l != nil && old(l.rootState.v) <= 1 && old(l.policy.Mode) == RecursionWorkEnforce && (kind == RecursionWorkDNSKEYCandidate ==> used < old(l.policy.MaxDNSKEYCandidates)) && (kind == RecursionWorkRRsetSignature ==> used < old(l.policy.MaxRRsetSignatureChecks)) && (kind == RecursionWorkConcurrentCrypto ==> used < old(l.policy.MaxConcurrentCrypto)) ==> result == nil
+//@   assert at return#5: old(l.policy.Mode) == RecursionWorkEnforce && used >= limit && result != nil
